@@ -1,4 +1,5 @@
 import BoltonsVerif.C10.Backends
+import BoltonsVerif.C10.DriverCorrect
 /-
 C10 — property theorems (statements + short derivations from Proofs/Queue/Backends.lean)
 and non-vacuity examples.
@@ -149,6 +150,14 @@ theorem sorted_backend_always_sorted (limit : Nat → Nat) (ops : List (Op T)) :
     Asc Entry.lt (PQ.run (sortedBackend limit) ops).1.pq.toList :=
   (run_sim (sorted_lawful limit) ops).1.wf.2
 
+/-- the compiled driver used by the correspondence check evaluates exactly `PQ.run` (the function
+    all theorems here are about), and therefore prints the specification's outputs -/
+theorem driver_runs_the_model (sf : Nat) (ops : List (Op Nat)) :
+    Driver.runOuts (sortedBackend (curSizeLimit sf)) ops = (Spec.run ops).2 ∧
+    Driver.runOuts listHeap ops = (Spec.run ops).2 := by
+  rw [runOuts_eq, runOuts_eq]
+  exact ⟨(run_sim (sorted_lawful _) ops).2.2, (run_sim listHeap_lawful ops).2.2⟩
+
 end B
 
 /-! ## C. the clauses of the statement, for every history -/
@@ -206,6 +215,40 @@ theorem len_eq_live {β : Type} {B : Backend T β} {wf : β → Prop}
     {content : β → List (Entry T)} (L : Lawful B wf content) (ops : List (Op T)) :
     nextOut B ops .len = .len (live ops).length := by
   rw [nextOut_eq_spec L]; rfl
+
+/-- `sortDesc` (used below) really is "by descending priority, earlier (re-)insertion first among
+    equals": a permutation, descending, and stable -/
+theorem sortDesc_is_stable_descending_sort (s : Spec T) :
+    (sortDesc s).Perm s ∧ (sortDesc s).Pairwise (fun a b => b.2 ≤ a.2) ∧
+    ∀ p, (sortDesc s).filter (hasPrio p) = s.filter (hasPrio p) := by
+  refine ⟨sortDesc_perm s, sortDesc_sorted s, ?_⟩
+  intro p
+  rw [← sortDesc_filter]
+  apply sortDesc_of_same_prio p
+  intro x hx
+  simpa [hasPrio] using (List.mem_filter.mp hx).2
+
+/-- draining: after ANY history, popping `len` times returns all live tasks ordered by descending
+    priority, earliest (re-)insertion first among equals, and leaves the queue empty -/
+theorem drain_returns_sorted {β : Type} {B : Backend T β} {wf : β → Prop}
+    {content : β → List (Entry T)} (L : Lawful B wf content) (ops : List (Op T)) (d : Bool) :
+    ((PQ.run B (ops ++ List.replicate (live ops).length (.pop d))).2).drop ops.length
+      = (sortDesc (live ops)).map (fun x => Out.task x.1) ∧
+    live (ops ++ List.replicate (live ops).length (.pop d)) = [] := by
+  rw [(run_sim L _).2.2]
+  unfold live Spec.run
+  rw [runFrom_append]
+  have hlen : ∀ (s : Spec T) (os : List (Op T)), (Spec.runFrom s os).2.length = os.length := by
+    intro s os
+    induction os generalizing s with
+    | nil => rfl
+    | cons o os ih => simp [Spec.runFrom, ih]
+  obtain ⟨h1, h2⟩ := spec_drain d _ (Spec.runFrom ([] : Spec T) ops).1 (live_tasks_nodup ops) rfl
+  simp only
+  refine ⟨?_, h2⟩
+  rw [List.drop_append_of_le_length (by rw [hlen]; exact Nat.le_refl _), ← hlen ([] : Spec T) ops,
+    List.drop_length, List.nil_append]
+  exact h1
 
 /-- a returned task is live -/
 theorem returned_task_is_live {β : Type} {B : Backend T β} {wf : β → Prop}
@@ -343,6 +386,8 @@ example : (⟨[[1, 2], [3], [4, 5]]⟩ : BL Nat).ok := by simp [BL.ok]
 example : Asc (fun a b : Nat => decide (a < b)) (⟨[[1, 2], [3], [4, 5]]⟩ : BL Nat).toList := by
   simp [Asc, BL.toList]
 example : bisectRight (fun a b : Nat => decide (a < b)) 3 ⟨[[1, 2], [3], [4, 5]]⟩ = 3 := by decide
+
+example : sortDesc [(1, 5), (2, 5), (3, 7), (4, 1), (5, 5)] = [((3 : Nat), (7 : Int)), (1, 5), (2, 5), (5, 5), (4, 1)] := by decide
 
 /-- hypotheses of `removed_never_returned` / `popped_never_returned` are satisfiable -/
 example : ∀ op ∈ ([.pop false, .add 7 1, .peek true] : List (Op Nat)), isAddOf 3 op = false := by decide
